@@ -19,7 +19,7 @@ def build_tool():
     return TOOL
 
 
-def run_tool(backend, entry, outdir, config=(), config_file=None, cwd=None, timeout=120):
+def run_tool(backend, entry, outdir, config=(), config_file=None, cwd=None, timeout=120, extra_args=(), backtrace=False):
     """Runs the real CLI in a child process. Returns CompletedProcess (rc, stdout, stderr)."""
     shutil.rmtree(outdir, ignore_errors=True)
     os.makedirs(outdir, exist_ok=True)
@@ -27,8 +27,16 @@ def run_tool(backend, entry, outdir, config=(), config_file=None, cwd=None, time
     cmd += ["--config-file", config_file or os.path.join(outdir, "__no_config__.toml")]
     for c in config:
         cmd += ["--config", c]
-    env = dict(ENV, RUST_BACKTRACE="0", NO_COLOR="1")
+    cmd += list(extra_args)
+    env = dict(ENV, RUST_BACKTRACE="1" if backtrace else "0", NO_COLOR="1")
     return sh(cmd, cwd=cwd or outdir, timeout=timeout, env=env)
+
+
+def panic_before_lowering(backend, entry, outdir, **kw):
+    """re-runs a panicking invocation with a backtrace: True when the panic happened while the source was still being
+    parsed into the AST (ast::File::from), i.e. before lowering started"""
+    q = run_tool(backend, entry, outdir, backtrace=True, **kw)
+    return "diplomat_core::ast::modules::File as core::convert::From" in q.stderr
 
 
 def classify_tool(p):
